@@ -220,6 +220,8 @@ class Report:
 
     def write_replay(self, name, data):
         d = os.path.join(VERIF_ROOT, "replays", self.prop)
+        if os.path.realpath(REPO_ROOT) != "/repo":
+            d = os.path.join("/tmp", "verif-scratch-replays", self.prop)
         os.makedirs(d, exist_ok=True)
         safe = "".join(c if c.isalnum() or c in "-_." else "_" for c in name)[:80]
         h = hashlib.sha1(json.dumps(data, sort_keys=True, default=str).encode()).hexdigest()[:8]
@@ -229,7 +231,7 @@ class Report:
         data["tree_digest"] = tree_digest()
         with open(path, "w", encoding="utf-8") as f:
             json.dump(data, f, indent=1, default=str)
-        return os.path.relpath(path, VERIF_ROOT)
+        return os.path.relpath(path, VERIF_ROOT) if path.startswith(VERIF_ROOT) else path
 
     MAX_LINES = 12
 
@@ -255,6 +257,9 @@ def write_evidence(rep: Report, mod, level, coverage, assumptions):
         "violations": len(rep.violations),
     }
     d = os.path.join(VERIF_ROOT, "evidence")
+    if os.path.realpath(REPO_ROOT) != "/repo":
+        # a run against a scratch copy (seeded change under test) never touches the evidence of the real tree
+        d = os.path.join("/tmp", "verif-scratch-evidence")
     os.makedirs(d, exist_ok=True)
     with open(os.path.join(d, f"{rep.prop}.json"), "w", encoding="utf-8") as f:
         json.dump(ev, f, indent=1, default=str)
